@@ -59,7 +59,7 @@ def tie(ctx):
     S = cgen.shipped()
     inc = os.path.join(os.path.dirname(ca.__file__), "include")
     default_so = {}
-    for (sid, parts, gen, opts) in S:
+    for (sid, parts, gen, opts, raw_eqs) in S:
         os.makedirs(os.path.join(work, sid), exist_ok=True)
         parts = [(ns, {f.name(): f for f in eqs.values()}, cfile, len(eqs)) for (ns, eqs, cfile) in parts]
         acc = {}
@@ -74,6 +74,14 @@ def tie(ctx):
             dest = os.path.join(work, sid, cid.replace("=", "").replace("+", "_")[:120])
             stats["configs_tried"] += 1
             try:
+                if not cfg:
+                    # regeneration: the destination already holds code generated earlier from functions with the same names and
+                    # signatures but different bodies — the second call must replace it (checked below like any other output)
+                    try:
+                        gen(dest, _eqs=cgen.decoy_set(raw_eqs))
+                        stats["regenerations"] = stats.get("regenerations", 0) + 1
+                    except Exception as e0:   # noqa: BLE001
+                        ctx.notes.append("regeneration scenario for %s not run: %s" % (sid, str(e0)[-120:]))
                 gen(dest, **cfg)
             except Exception as e:   # noqa: BLE001
                 stats["configs_rejected"].append({"set": sid, "config": cid, "error": str(e)[-200:]})
